@@ -639,6 +639,8 @@ type ReadResult struct {
 	Rows  []Row
 	Err   error // nil means clean EOF
 	Reads int
+	// ErrRows are the rows the failing Read reported as read (n > 0) together with its error.
+	ErrRows []Row
 }
 
 // Drain reads r to the end with destination views following sizes (cycled),
@@ -680,6 +682,7 @@ func (s Schema) Drain(ctx context.Context, r sliceio.Reader, sizes []int, maxRea
 		}
 		if err != nil && err != sliceio.EOF {
 			res.Err = err
+			res.ErrRows = FrameRows(d.View, n)
 			return res, nil
 		}
 		rows := FrameRows(d.View, n)
